@@ -58,6 +58,10 @@ type DecideSpec struct {
 	R *Resolver
 	// NoStep disables stepping into private helpers (see StepPolicy).
 	NoStep bool
+	// Step, when set, names further same-package helpers the interpreter may
+	// step into for this decision (in addition to StepPolicy), e.g. a small
+	// helper shared by sibling methods.
+	Step func(*ssa.Function) bool
 }
 
 // StepPolicy says which statically called same-package functions the
@@ -315,12 +319,18 @@ func interpret(spec DecideSpec, val Val, pos func(token.Pos) string) (string, []
 		if _, isMC := call.Call.Value.(*ssa.MakeClosure); isMC {
 			return nil
 		}
+		// a call the rule itself names as an effect is an atom of the decision
+		if spec.Effect != nil {
+			if _, named := spec.Effect(call); named {
+				return nil
+			}
+		}
 		for _, fr := range stack {
 			if fr.fn == g {
 				return nil
 			}
 		}
-		if StepPolicy == nil || !StepPolicy(g) {
+		if (StepPolicy == nil || !StepPolicy(g)) && (spec.Step == nil || !spec.Step(g)) {
 			if os.Getenv("RQCHECK_DEBUG_DECIDE") != "" {
 				fmt.Fprintf(os.Stderr, "  not stepping into %s (policy)\n", g.Name())
 			}
